@@ -75,6 +75,28 @@ def run(ctx):
                 break
         reqs.append({"op": "autoname", "tree": d})
         exp.append({"tree": out, "map": [[k, list(v)] for k, v in m.items()]})
+        # ---- the tree is edited (a clause inserted in front of / appended to an operation) and named again: the names
+        # of the first naming are all on operands, so the second naming overwrites every one of them and the three
+        # clauses hold again (seeded C15-H keeps existing names and hands out colliding new ones)
+        ops = [x for x in trees.all_nodes(o) if isinstance(x, I.tree.BaseOperation) and len(x.children) >= 1]
+        if ops and rng.random() < 0.2:
+            tgt = rng.choice(ops)
+            new = I.tree.Word("inserted")
+            kids = list(tgt.children)
+            tgt.children = [new] + kids if rng.random() < 0.6 else kids + [new]
+            try:
+                m2 = I.naming.auto_name(o)
+            except Exception as e:
+                ctx.fail("auto_name raised %s on a tree that was named before: %s" % (type(e).__name__, e), info)
+                continue
+            out2 = common.dump_tree(o)
+            ctx.count("named, edited, named again")
+            named2 = {p: n["n"] for p, n in common.tree_nodes(out2) if n["n"] is not None}
+            exp2 = [p + (i,) for p, n in common.tree_nodes(out2) if n["c"].endswith("Operation") for i in range(len(n["ch"]))]
+            if sorted(named2) != sorted(exp2) or len(set(named2.values())) != len(named2) or \
+                    {k: tuple(v) for k, v in m2.items()} != {v: p for p, v in named2.items()}:
+                ctx.fail("after an edit and a second auto_name the names are not distinct names of exactly the operands, "
+                         "mapped to their paths", dict(info, renamed=out2, map=[[k, list(v)] for k, v in m2.items()]))
     if ctx.model_ok:
         for r, a, e in zip(reqs, common.ask_model(reqs), exp):
             if a != e:
